@@ -34,7 +34,7 @@ def in_fragment(m):
 
 
 ATTRS = (('cost', 3), ('cost', 7), ('weight', 2.5), ('flag', True), ('label', 'hello'), ('a b', 1), ('ünï', 'x'))
-NAMES = ('a b', 'a-b', 'ñu')
+NAMES = ('a b', 'a-b', 'ñu', 'Cafe\u0301', '\u212b', 'x\u2028y')
 
 
 def _level1():
@@ -62,6 +62,15 @@ def cases(tier, seed):
             yield ('S', m)
     for t in families.deep_trees():
         yield ('SK', cm.on_carrier([t]))
+    # long constraints over names that contain blanks (the break column is moved by the first name's length)
+    for k in range(0, 24):
+        first = 'P' + 'x' * k + ' q'
+        nm = [first, 'Rear camera', 'Lane assist', 'Parking sensors', 'Night vision', 'Head up display']
+        car = sh.M(sh.F('Car', [sh.R(0, 1, [sh.F(n)]) for n in nm]))
+        a, b, c, d, e, f = nm
+        for t in (('AND', ('OR', ('AND', a, b), ('IMPLIES', c, d)), ('OR', ('NOT', ('AND', e, f), None), ('EQUIVALENCE', a, d))),
+                  ('IMPLIES', ('AND', ('OR', a, b), ('OR', c, d)), ('OR', ('AND', e, f), ('AND', d, ('NOT', a, None))))):
+            yield ('SK', (car[0], (('c1', t),)))
     carriers1 = [m for m in sp.structures_upto(3) if in_fragment(m)]
     carriers2 = [m for m in sp.structures_upto(2 if tier == 'quick' else 3) if in_fragment(m)]
     seen = set()
